@@ -117,7 +117,7 @@ CHECKS = {
               "no key supplied: Tor's key kept; supplied key kept as sent; address = ServiceID.onion), C14_remove. Correspondence: the full product "
               "of options through the two public create() methods against the fake Tor; command text, object state after the reply and DEL_ONION "
               "text compared with the model, and the implementation's own command parsed by the Lean spec parser."),
-        note=NOTE_COMMON + "Port normalisation by _validate_ports is re-stated by the harness (not modelled); the descriptor wait is C15's subject.",
+        note=NOTE_COMMON + "Port normalisation (_validate_ports, then _validate_ports_low_level) is modelled (Model/Ports; Props/C14b: C14_bare, C14_pair_port, C14_pair_text, C14_pair_refused, C14_ready, C14_ports_count, C14_ports_all_or_nothing, C14_bare_ports_in_order, C14_all_checked) with int() of a text for ASCII only and the locality of an address as a parameter; the descriptor wait is C15's subject.",
         technique="Lean 4: parse-after-build theorem via generic split/join lemmas; decision-table theorems; differential correspondence (exhaustive product)",
         ref='§4 C14'),
     'C15': dict(
